@@ -355,6 +355,39 @@ def croo_long(ctx):
     ctx.sample(sub, {"lengths": [257, 300, 513, 1000], "runs": "0..3, 127..129, 255..257, 300, 511..513, 999, n", "isolated_one_steps_back": [64, 128, 255, 256, 257, 384, 511, 512, 513, 768]})
 
 
+def croo_joint(ctx):
+    """ONE stored dask array under several time labellings (ascending, descending, rotated, interleaved), the lazy
+    croo results evaluated in one graph - dask.compute(*results), one concat: each result follows its own labels."""
+    import dask
+    import pandas as pd
+    import xarray as xr
+    sub = "croo_joint"
+    for n in (5, 9, 70):
+        w = sse.word_indices(2, n).astype("uint8") if n <= 9 else np.array([[int((i * 7 + j * j) % 3 != 0) for i in range(n)] for j in range(24)], dtype="uint8")
+        N = len(w)
+        times = pd.date_range("2000-01-01", periods=n, freq="10D")
+        stored = xr.DataArray(w.reshape(N, 1, n).copy(), dims=("y", "x", "time"), coords={"time": times}).chunk({"y": max(1, N // 3), "time": -1})
+        orders = [tuple(range(n)), tuple(range(n - 1, -1, -1)), tuple(np.roll(np.arange(n), 2)), tuple(list(range(0, n, 2)) + list(range(1, n, 2)))]
+        lazies = [stored.assign_coords(time=times[list(o)]).hdc.algo.croo() for o in orders]
+        for how in ("dask.compute", "concat"):
+            if how == "dask.compute":
+                res = [np.asarray(r.values).reshape(-1) for r in dask.compute(*lazies)]
+            else:
+                cc = xr.concat(lazies, dim="labelling").compute()
+                res = [np.asarray(cc.isel(labelling=k).values).reshape(-1) for k in range(len(orders))]
+            for o, got in zip(orders, res):
+                chron = np.empty_like(w)
+                chron[:, list(o)] = w          # stored position i carries the label of chronological rank o[i]
+                cr, _ = ref_runs(chron)
+                ctx.count(sub, evaluations=N, states=1, transitions=1, traces_validated_against_impl=1, nontrivial=N)
+                if not np.array_equal(got.astype(np.int64), cr):
+                    j = int(np.nonzero(got.astype(np.int64) != cr)[0][0])
+                    ctx.violation(sub, {"n": n, "how": how, "ranks": list(map(int, o))[:12]}, {"kind": "croo_joint"},
+                                  f"croo of {len(orders)} time labellings of one stored dask array evaluated together ({how}), {n} steps: under the labelling with "
+                                  f"chronological ranks {list(map(int, o))[:12]}... the stored series {w[j].tolist()[:20]} -> {int(got[j])}, expected {int(cr[j])}")
+    ctx.sample(sub, {"lengths": [5, 9, 70], "labellings": ["ascending", "descending", "rotated", "interleaved"], "evaluation": ["dask.compute(*results)", "xr.concat(...).compute()"]})
+
+
 def croo_sequences(ctx):
     """Operation sequences on ONE object: croo(), relabel the time axis in place, croo() again ... - every result
     must be the one for the labels the object carries at that moment (no remembered ordering)."""
@@ -397,6 +430,7 @@ def run(ctx):
     lroo_small_cubes(ctx)
     croo_all(ctx)
     croo_long(ctx)
+    croo_joint(ctx)
     croo_sequences(ctx)
 
 
@@ -409,6 +443,8 @@ def replay(sub, case, p):
         croo_sequences(p)
     elif k == "croo_long":
         croo_long(p)
+    elif k == "croo_joint":
+        croo_joint(p)
     elif k == "lroo_small":
         lroo_small_cubes(p)
     elif k == "croo":
